@@ -250,6 +250,25 @@ def check_otherbank(out: Outcome, sub) -> None:
         out.bad(f"accepted-other-bank:{tgt}", sub, f"{rom}: branch at {B:#08x} to {T:#08x} ({db:+d} banks away) must be rejected but assembled: {flat.hex()}\n{src}")
 
 
+def check_flow(out: Outcome, sub) -> None:
+    """Code that runs on past the last byte of a ROM range without any *= / @= : the assembler gives what follows a run address in
+    the next bank (RAM under HiROM, nothing under LoROM); a branch assembled there has no ROM run address and is rejected."""
+    m, rom, lead, k = sub["m"], sub["rom"], sub["lead"], sub["k"]
+    model = busmodel.builtin(rom)
+    for r in model.rom_ranges():
+        last = r.first + model.range_bytes(r) // r.size - 1  # (a RAM range may shadow the top banks of the range)
+        if last + 1 > 0xFF or model.kind(((last + 1) << 16) | 0x8000) == "rom":
+            continue
+        B = (last << 16) | (r.win_hi - 3)
+        head = f"*=0x{B:06x}\n" if lead == "org" else f"*=0x{(r.first << 16) | r.win_lo | 0x100:06x}\n@=0x{B:06x}\n"
+        src = head + "tg:\n" + "nop\n" * (4 + k) + f"{m} tg\n"
+        res = driver.assemble_mem(src, rom=rom)
+        if res.accepted:
+            flat = b"".join(dd for _, dd in res["blocks"])
+            out.bad(f"accepted-beyond-the-rom-range:{lead}", sub, f"{rom}: the branch stands {k + 1} byte(s) past the end of banks {r.first:#04x}..{last:#04x} (labels: {dict(res['labels'])}) "
+                    f"but was assembled: {flat.hex()}\n{src}")
+
+
 def enum_units(tier, seed):
     units = []
     for rom in ("low", "high"):
@@ -308,6 +327,11 @@ def run_case(case) -> Outcome:
             check_deep(out, sub)
             ev += 1
             nt += 1
+        for lead in ("org", "reloc"):
+            for k in (0, 1, 3):
+                check_flow(out, {"t": "flow", "m": case["m"], "rom": case["rom"], "lead": lead, "k": k})
+                ev += 1
+                nt += 1
         # the target is in another bank, at (nearly) the same in-bank position
         for db in (1, 2, -1, -3, 0x10):
             for d in (-128, -2, 0, 14, 127):
@@ -329,6 +353,9 @@ def run_case(case) -> Outcome:
         return out
     if case.get("t") == "otherbank":
         check_otherbank(out, case)
+        return out
+    if case.get("t") == "flow":
+        check_flow(out, case)
         return out
     if not check_one(out, case):
         return Outcome(skip="combination outside the statement")
